@@ -1539,6 +1539,63 @@ def rule_blocks(rep, inst, R="C03.blocks"):
 
 # ---------------------------------------------------------------------------------------------------------------------
 # C03.cover - whole-buffer loops visit every block exactly once
+def tail_block_mask(d, inst, fn, loop, names, linit):
+    """-> True if the last block is read after `loop` and whatever mask is applied to it keeps all the bits below size(); a text if a bit is lost;
+    None if the treatment is not recognised"""
+    from .. import ceval
+    after = False
+    tail_reads = []
+    lid = loop.get("id")
+    loop_ids = {x.get("id") for x in ir.walk_expr(loop)}
+    for n in ir.walk_expr(ir.body(fn)):
+        if n.get("id") == lid:
+            after = True
+        if not after or n.get("id") in loop_ids:
+            continue
+        t = ir.sx(n)
+        if n.get("kind") in ("CXXOperatorCallExpr", "ArraySubscriptExpr") and t[0] == "index" and t[1] == ("mem", ("this",), "m_buffer"):
+            tail_reads.append(n)
+        if n.get("kind") == "CXXMemberCallExpr" and t == ("call", ("mem", ("mem", ("this",), "m_buffer"), "back")):
+            tail_reads.append(n)
+    if not tail_reads:
+        return "the last block is not looked at after the loop"
+    # the masks: operands of `&` in the statements after the loop that are not block reads
+    masks = []
+    after = False
+    for n in ir.walk_expr(ir.body(fn)):
+        if n.get("id") == lid:
+            after = True
+        if not after or n.get("id") in loop_ids:
+            continue
+        if n.get("kind") == "BinaryOperator" and n.get("opcode") == "&":
+            for side in ir.ekids(n):
+                st = ir.sx(side)
+                if not any(x[0] == "index" or (x[0] == "call" and x[1][0] == "mem" and x[1][2] == "back") for x in ir.subterms(st)):
+                    masks.append(side)
+    if not masks:
+        return True            # compared as a whole (the unused bits are kept zero: C03.canon)
+    W = inst.W
+    full = (1 << W) - 1
+    for m in masks:
+        node = ir.strip(m)
+        hops = 0
+        while node.get("kind") == "DeclRefExpr" and (node.get("referencedDecl") or {}).get("id") in linit and hops < 3:
+            node = ir.strip(linit[(node.get("referencedDecl") or {}).get("id")])
+            hops += 1
+        for size in range(1, 2 * W + 1):
+            want = full if size % W == 0 else (1 << (size % W)) - 1
+            try:
+                got = ceval.ev(node, ceval.Ctx(d, {}, {"m_size": size})) & full
+            except ceval.UB as e:
+                return "the mask `%s` applied to the last block has undefined behaviour for size() = %d (%s)" % (d.text(node)[:50], size, e)
+            except ceval.Unknown:
+                return None
+            if got & want != want:
+                return "the mask `%s` applied to the last block drops bit %d of it for size() = %d: that element takes no part" % (
+                    d.text(node)[:50], ((want & ~got) & -(want & ~got)).bit_length() - 1, size)
+    return True
+
+
 def rule_cover(rep, inst, R="C03.cover"):
     d = inst.d
     COUNT = (("call", ("mem", ("this",), "block_count")), ("call", ("mem", ("mem", ("this",), "m_buffer"), "size")))
@@ -1596,8 +1653,24 @@ def rule_cover(rep, inst, R="C03.cover"):
                         ok = False
                         det = "stops one block early (`%s`) without a separate test of the last block under the same condition" % ir.show(b)
                     continue
+                if tag is None and b[0] == "bin" and b[1] == "-" and b[3] == ("lit", "1") and (b[2] in COUNT or (b[2][0] == "ref" and b[2][1] in names and
+                                                                                                    names[b[2][1]].get("id") in linit and ir.sx(linit[names[b[2][1]].get("id")]) in COUNT)):
+                    # all blocks but the last in the loop, the last one separately: it must be read after the loop, and a mask applied to it must
+                    # keep every bit below size() - folded for every size 1..2W
+                    verdict = tail_block_mask(d, inst, fn, loop, names, linit)
+                    if verdict is None:
+                        inconc = "stops one block early (`%s`); the separate treatment of the last block was not recognised" % ir.show(b)
+                        ok = None
+                        break
+                    if verdict is not True:
+                        ok = False
+                        det = "stops one block early and %s" % verdict
+                    continue
                 ok = False
                 det = "runs up to `%s`, expected block_count()" % ir.show(b)
+            if ok is None:
+                rep.inconclusive(R, lab, cons, where=d.where(loop), detail=inconc)
+                continue
             if ok:
                 rep.holds(R, lab, cons, where=d.where(loop), detail="blocks 0 .. block_count()-1")
             else:
